@@ -29,7 +29,7 @@ def P(pid, level, **kw):
 
 
 P("C01", "proof", native=True, kani={"timeout": "600s", "compile_clause": True}, rac=["emit"],
-  unbounded="all operands, all 22 operators: spelling -> Combinator -> constructor -> emitted tokens == documented call",
+  unbounded="native family rand_diff: 48 (thorough 240) RANDOM programs under join! / try_join! / join_spawn! / try_join_spawn! (1-3 branches x 1-3 steps, operators from the Option pool, plain or block operands, captures reading or reassigning names, let / let mut, failing initial values, optional handler) x 48 (400) sampled inputs against the staged reference, value and evaluation trace; all operands, all 22 operators: spelling -> Combinator -> constructor -> emitted tokens == documented call",
   bounded="operator adjacency / chain length (Kani programs)",
   not_decided="left-to-right composition for chains outside the enumerated family; that parse_until applies the table (C14)")
 P("C02", "proof", kani={"timeout": "600s", "compile_clause": True}, rac=["emit"],
@@ -81,14 +81,14 @@ P("C03", "model_checking", native=True, kani={"timeout": "1200s"},
   not_decided="OS-thread interleavings and tokio task schedules (Kani has no thread support)")
 
 P("C10", "model_checking", native=True, kani={"timeout": "600s", "compile_clause": True}, rac=["linear"],
-  bounded="every operator with logging callbacks: exact callback trace == documented chain's trace; move-only Tok programs: live()==0 after the result is dropped; block operands inside wrappers evaluated once",
+  bounded="native family rand_diff: 48 (thorough 240) RANDOM programs under join! / try_join! / join_spawn! / try_join_spawn! (1-3 branches x 1-3 steps, operators from the Option pool, plain or block operands, captures reading or reassigning names, let / let mut, failing initial values, optional handler) x 48 (400) sampled inputs against the staged reference, value and evaluation trace; every operator with logging callbacks: exact callback trace == documented chain's trace; move-only Tok programs: live()==0 after the result is dropped; block operands inside wrappers evaluated once",
   not_decided="programs outside the enumerated family")
 P("C11", "proof", native=True, kani={"timeout": "600s", "compile_clause": True}, rac=["emit"],
-  unbounded="which operators hoist (is_replaceable, incl. the provided method used by ErrExpr/InitialExpr, R14), operands exposed and restored in order (inner_exprs / replace_inner_exprs); separate_block_expr itself for its three instantiations (R13 desugaring of enumerate/map/fold into a while loop with an inductive invariant): ALL block operands of one action are defined, once, in operand order, each under the name of (branch, action, operand index), and the operator is handed back over the replaced operands; generate_def_and_step_streams appends them after the earlier definitions",
+  unbounded="native family rand_diff: 48 (thorough 240) RANDOM programs under join! / try_join! / join_spawn! / try_join_spawn! (1-3 branches x 1-3 steps, operators from the Option pool, plain or block operands, captures reading or reassigning names, let / let mut, failing initial values, optional handler) x 48 (400) sampled inputs against the staged reference, value and evaluation trace; which operators hoist (is_replaceable, incl. the provided method used by ErrExpr/InitialExpr, R14), operands exposed and restored in order (inner_exprs / replace_inner_exprs); separate_block_expr itself for its three instantiations (R13 desugaring of enumerate/map/fold into a while loop with an inductive invariant): ALL block operands of one action are defined, once, in operand order, each under the name of (branch, action, operand index), and the operator is handed back over the replaced operands; generate_def_and_step_streams appends them after the earlier definitions",
   bounded="placement of the definition stream relative to the steps: exact capture/callback trace for all hoisting operators rotating over positions, n<=3, d<=3, nested wrappers, both operands of fold/try_fold")
 
 P("C12", "model_checking", native=True, kani={"timeout": "600s", "compile_clause": True},
-  bounded="n<=3, d<=3, subsets of named branches (quick: 6 masks per profile), every later step has a capture reading a name; 4 executable macro kinds",
+  bounded="native family rand_diff: 48 (thorough 240) RANDOM programs under join! / try_join! / join_spawn! / try_join_spawn! (1-3 branches x 1-3 steps, operators from the Option pool, plain or block operands, captures reading or reassigning names, let / let mut, failing initial values, optional handler) x 48 (400) sampled inputs against the staged reference, value and evaluation trace; n<=3, d<=3, subsets of named branches (quick: 6 masks per profile), every later step has a capture reading a name; 4 executable macro kinds",
   not_decided="spawn kinds")
 P("C13", "model_checking", native=True, kani={"timeout": "600s"}, rac=["reject"],
   bounded="every legal (kind x handler) for the 4 executable kinds, n<=3, handler at end / between branches, failure flags symbolic; handler call count, argument order, wrapping, awaited value",
